@@ -71,6 +71,7 @@ def run(chk):
     r4_copy_targets(chk, repo)
     r5_async_saver_outcome(chk, repo)
     r6_rechunker_order(chk, repo)
+    r7_streams(chk, repo)
 
 
 # ------------------------------------------------------------------------------------ R1
@@ -385,8 +386,57 @@ def r6_rechunker_order(chk, repo):
     r1 = [n for n in acfg.stmt_nodes() if isinstance(n.stmt, ast.Raise) and {("replace", False), ("dest_directory is None", True)} <= acfg.guard_facts(n)]
     chk.check(bool(r1), "C16.R6", ca, None, "no error when neither a destination nor replace is given", site_text="_check_arguments: destination required unless replace")
 
+# ------------------------------------------------------------------------------------ R7
+def r7_streams(chk, repo):
+    from ..rules import passthrough_conserves, passthrough_generators
+    chk.describe("C16.R7", "chunk streams are handled whole: wrapper generators around a loader yield every chunk they take, and a loader that is consumed once per target is created once per target")
+    R = "C16.R7"
+    n = 0
+    for q, p in (("Context.copy_to_frontend", CONTEXT), ("rechunker", RECH)):
+        f = repo.func(q, p)
+        for fn, take, item, loop in passthrough_generators(f):
+            n += 1
+            ok, path = passthrough_conserves(fn, take, item, loop)
+            chk.check(ok, R, f, take, f"{q}.{fn.name}: a chunk taken from the source can be dropped without being yielded (its rows or its time range never reach the saver)",
+                      site_text=f"{q}.{fn.name}: every chunk taken is yielded", site={"function": f"{q}.{fn.name}", "rule": "wrapper conserves the stream"})
+            # the wrapper ends only when the source is exhausted
+            for st in walk_body(fn):
+                if isinstance(st, (ast.Return, ast.Break)) and enclosing(st, (ast.While, ast.For)) is loop:
+                    h = enclosing(st, (ast.ExceptHandler,))
+                    chk.check(h is not None and h.type is not None and "StopIteration" in norm(h.type), R, f, st, f"{q}.{fn.name}: the wrapper stops although its source is not exhausted", site_text=f"{q}.{fn.name}: ends only on StopIteration")
+    chk.floor(R, "wrapper generators around loaders", n, 2)
+    from .c03 import decompressors_drain
+    decompressors_drain(chk, repo, R)
+    # one loader per target
+    cp = repo.func("Context.copy_to_frontend", CONTEXT)
+    sf = [c for c in calls_in(cp.node) if isinstance(c.func, ast.Attribute) and c.func.attr == "save_from"]
+    chk.check(len(sf) >= 1, R, cp, None, "copy_to_frontend no longer feeds a saver with save_from", site_text="copy_to_frontend: saver.save_from(<stream>)")
+    for c in sf:
+        lp = enclosing(c, (ast.For, ast.While))
+        if lp is None or enclosing(lp, (ast.FunctionDef,)) is not cp.node:
+            chk.ok(R, "copy_to_frontend: save_from outside a loop", nontrivial=False)
+            continue
+        # names the stream argument depends on: the argument, and free variables of a local wrapper
+        names = {x.id for a in c.args for x in ast.walk(a) if isinstance(x, ast.Name)}
+        for fn in [x for x in ast.walk(cp.node) if isinstance(x, ast.FunctionDef) and x is not cp.node and x.name in names]:
+            bound = {a.arg for a in fn.args.args} | {t.id for st in walk_body(fn) for t in ast.walk(st) if isinstance(t, ast.Name) and isinstance(t.ctx, ast.Store)}
+            names |= {x.id for x in walk_body(fn) for x in ast.walk(x) if isinstance(x, ast.Name) and isinstance(x.ctx, ast.Load) and x.id not in bound}
+        srcs = [st for st in walk_body(cp.node) if isinstance(st, ast.Assign) and isinstance(st.targets[0], ast.Name) and st.targets[0].id in names and isinstance(st.value, ast.Call) and isinstance(st.value.func, ast.Attribute) and st.value.func.attr in ("loader", "get_iter")]
+        chk.check(bool(srcs), R, cp, stmt_of(c), "the stream given to save_from does not come from a loader", site_text="copy_to_frontend: stream = <backend>.loader(...)")
+        inside = {id(x) for st_ in lp.body for x in ast.walk(st_)}
+        for st in srcs:
+            chk.check(id(st) in inside, R, cp, st, "one loader (a generator) is shared by all target frontends: the first copy exhausts it and every further target is written empty and marked complete",
+                      site_text="copy_to_frontend: a fresh loader for every target frontend", site={"function": cp.qualname, "rule": "generator created inside the loop that consumes it"})
+
 
 WITNESSES = [
+    W("load wrapper skips empty chunks", "C16.R7", RECH,
+      "t1 = time.time()\n                load_time_seconds.append(t1 - t0)", "t1 = time.time()\n                if not data.nbytes:\n                    continue\n                load_time_seconds.append(t1 - t0)"),
+    W("copy wrapper stops at the first empty chunk", "C16.R7", CONTEXT,
+      "data.target_size_mb = md[\"chunk_target_size_mb\"]\n                        except StopIteration:", "data.target_size_mb = md[\"chunk_target_size_mb\"]\n                            if not len(data):\n                                return\n                        except StopIteration:"),
+    W("one loader shared by all copy targets", "C16.R7", CONTEXT,
+      "for t_sf in target_sf:\n            try:\n                # Need to load a new loader each time since it's a generator\n                # and will be exhausted otherwise.\n                loader = s_be.loader(s_be_key)\n",
+      "loader = s_be.loader(s_be_key)\n        for t_sf in target_sf:\n            try:\n"),
     W("rmtree of the source outside `if replace`", "C16.R1", RECH,
       "if replace:\n        print(f\"move {dest_directory} to {source_directory}\")\n        shutil.rmtree(source_directory)",
       "shutil.rmtree(source_directory)\n    if replace:\n        print(f\"move {dest_directory} to {source_directory}\")"),
